@@ -170,6 +170,8 @@ def run_case(case, scratch):
                         fail("required_field_not_enforced", "missing", f"{tname} accepted a value lacking required {fname}: {json.dumps(lacking)[:200]}")
                     except pydantic.ValidationError:
                         pass
+                    except Exception as exc:  # noqa: BLE001  (e.g. a default factory of the generated model raising)
+                        fail("default_read", "validate:" + type(exc).__name__, f"{tname}: validating a value raised {exc!r}")
                 if isinstance(fdef.type, GraphQLNonNull) and fname in expected:
                     units += 1
                     nulled = dict(expected, **{fname: None})
@@ -185,6 +187,8 @@ def run_case(case, scratch):
                         fail("required_field_not_enforced", "null", f"{tname} accepted null for non-null {fname}")
                     except pydantic.ValidationError:
                         pass
+                    except Exception as exc:  # noqa: BLE001
+                        fail("default_read", "validate:" + type(exc).__name__, f"{tname}: validating a value raised {exc!r}")
         # (3) defaults read back
         required_only = None
         for spec in case["values"][tname]:
